@@ -103,7 +103,28 @@ func (e *procEnv) redisURIs() map[string]string {
 	for n, m := range e.redis {
 		out[n] = "redis://" + m.Addr()
 	}
+	// a second logical database on the first server (C18: same server, separate keyspaces)
+	out["redisdb1"] = "redis://" + e.redis["redis"].Addr() + "/1"
 	return out
+}
+
+// server / db resolve a store kind of the spec to the miniredis server and its logical database.
+func (e *procEnv) server(kind string) *miniredis.Miniredis {
+	if kind == "redisdb1" {
+		return e.redis["redis"]
+	}
+	return e.redis[kind]
+}
+
+func (e *procEnv) db(kind string) *miniredis.RedisDB {
+	m := e.server(kind)
+	if m == nil {
+		return nil
+	}
+	if kind == "redisdb1" {
+		return m.DB(1)
+	}
+	return m.DB(0)
 }
 
 // ---------------------------------------------------------------------------------------------
@@ -541,7 +562,7 @@ func (s *spyStore) call(method, sid string, fn func() error) *SpyEv {
 	case ev.Fault == "redis-down":
 		// the Redis server fails every command for the duration of this store call (memory store: plain error)
 		w.countFault("redis-down")
-		m := penv.redis[w.storeKind(s.filter)]
+		m := penv.server(w.storeKind(s.filter))
 		if m == nil {
 			ev.Err = errors.New("sim: injected store failure (before effect)")
 			break
@@ -739,7 +760,7 @@ func (w *World) corruptField(fi int, sid, field string) {
 	if fi < 0 || fi >= len(w.Filters) || sid == "" {
 		return
 	}
-	m := penv.redis[w.Filters[fi].Spec.Store]
+	m := penv.db(w.Filters[fi].Spec.Store)
 	if m == nil || !m.Exists(sid) {
 		return
 	}
@@ -797,7 +818,7 @@ func (w *World) Peek(fi int, sid string) *SessSnap {
 		return &SessSnap{Found: true, Tokens: snap.Tokens, State: snap.State, Added: snap.Added, Accessed: snap.Accessed}
 	}
 	w.syncRedis()
-	m := penv.redis[w.Filters[fi].Spec.Store]
+	m := penv.db(w.Filters[fi].Spec.Store)
 	if m == nil || !m.Exists(sid) {
 		return &SessSnap{}
 	}
